@@ -450,18 +450,7 @@ theorem ideal_flash_is_RR {n : Nat} (eps : α) (z Psat : Fin n → α) (P : α)
 `z = (1/2, 1/2)`, `Psat = (2, 1/2)`, `P = 1`, solver = the two-component closed form.  The state
 `x = (1/3, 2/3)`, `V = 1/2`, `K = (2, 1/2)` is an exact fixed point of the iteration. -/
 
-def exZ : Fin 2 → ℚ := fun _ => 1/2
-def exPsat : Fin 2 → ℚ := fun i => if i = 0 then 2 else 1/2
-def exS : St 2 ℚ := { x := fun i => if i = 0 then 1/3 else 2/3, V := 1/2, K := exPsat }
-
-theorem exS_fixed :
-    iterMap false 0 exZ (fun i => 1 * exPsat i / 1) (fun _ _ => 1) (fun _ _ => 1) (fun K _ => rr2Nv exZ K) exS = exS := by
-  have hK : newK (0 : ℚ) (fun i => 1 * exPsat i / 1) (fun _ : Fin 2 => (1 : ℚ)) (fun _ => 1) = exPsat := by
-    funext i; fin_cases i <;> simp [newK, newK1, exPsat]
-  have hV : rr2Nv exZ exPsat = 1/2 := by
-    simp [rr2Nv, rr2N, exZ, exPsat]; norm_num
-  simp only [iterMap, iterStep, hK, Bool.false_eq_true, if_false, hV, exS, St.mk.injEq, and_true]
-  funext i; fin_cases i <;> simp [xOfV, exZ, exPsat] <;> norm_num
+-- (`exZ`, `exPsat`, `exS` and the helper `exS_fixed : iterMap … exS = exS` live in Lemmas/Flash.lean)
 
 example :
     (∀ i, exS.K i = exPsat i / 1) ∧ rr exZ (fun i => exPsat i / 1) exS.V = 0 ∧
